@@ -309,6 +309,7 @@ func Universe(o UniverseOpts) *Schema {
 	}
 	q := &TypeDef{Kind: KObject, Name: "Query", Fields: append([]*FieldDef{
 		f("a", N("A")), f("b", N("B")), f("c", N("C")), f("as", L(N("A"))),
+		f("val", N("V")), f("vals", L(N("V"))), // reflection: a struct value and a slice of struct values of a value-bound type
 	}, common()...)}
 	s := &Schema{Query: "Query", Mutation: "Mutation", Types: []*TypeDef{
 		q,
@@ -317,6 +318,7 @@ func Universe(o UniverseOpts) *Schema {
 		}},
 		{Kind: KInterface, Name: "Named", Fields: []*FieldDef{f("name", N("String")), f("i", N("Int")), f("kid", N("A")), m("echo", N("String"), echoArgs()...), f("buddy", N("Named"))}},
 		obj("A"), obj("B"), obj("C"),
+		{Kind: KObject, Name: "V", Fields: []*FieldDef{f("id", N("ID")), f("vid", N("String")), m("vm", N("String"))}},
 		{Kind: KUnion, Name: "AB", Members: members},
 		{Kind: KEnum, Name: "Color", Values: []string{"RED", "GREEN", "BLUE"}},
 		{Kind: KInput, Name: "Filter", Fields: []*FieldDef{{Name: "min", Type: NN(N("Int"))}, {Name: "tag", Type: N("String"), Default: "\"dflt\""},
